@@ -1096,6 +1096,11 @@ func (e *Exec) commit(bi int, rec *blockRecord, h int64) {
 		var resp abci.ResponseCommit
 		ioBefore := r.db.IOFailures
 		p := e.call(r, func() { resp = r.app.Commit() })
+		if dead, c := r.db.Dead(); dead && p == nil {
+			// the application recovered the crash and went on: the process was killed at that write all the same
+			p = c
+			e.res.Stats.Probe("crash_recovered_by_application")
+		}
 		r.db.CrashBefore(-1)
 		if p != nil {
 			if c, ok := p.(simdb.Crash); ok {
